@@ -828,7 +828,31 @@ func genCase(t *rapid.T) Case {
 		return Case{Target: rapid.SampledFrom([]string{"structuredheader.ParseParameterisedList", "structuredheader.ParseListOfLists"}).Draw(t, "shtarget"), Str: shString(t), Origin: "header-string"}
 	case "mi":
 		target, stream, dg := miStream(t)
-		switch rapid.IntRange(0, 3).Draw(t, "mimut") {
+		switch rapid.IntRange(0, 4).Draw(t, "mimut") {
+		case 4:
+			// The attacker controls the digest header too: a hostile record-size field together with a
+			// digest that makes the decoder's FIRST integrity check succeed, whatever number k of
+			// octets it takes for the first chunk (0..40 octets: sizes that wrap around 2^64 when the
+			// 32-octet proof length is added; or the honest chunk), as a final (0x00) or inner (0x01)
+			// record. Only then is the code behind the check reached.
+			rsv := rapid.SampledFrom([]uint64{^uint64(0), ^uint64(0) - 1, ^uint64(0) - 8, ^uint64(0) - 30, ^uint64(0) - 31, ^uint64(0) - 32, ^uint64(0) - 33, 1 << 63, 1<<63 - 32, 16384, 16385, 1, 0}).Draw(t, "mirsw")
+			body := gen.Filler(rapid.SampledFrom([]int{0, 1, 8, 31, 32, 33, 40, 64, 100}).Draw(t, "mibody"), 11)
+			k := rapid.SampledFrom([]int{0, 1, 7, 8, 30, 31, 32, 33, 40}).Draw(t, "mik")
+			if w := int(rsv + 32); rsv+32 < 64 && rapid.Bool().Draw(t, "mikwrap") {
+				k = w // exactly the wrapped chunk size
+			}
+			if k > len(body) {
+				k = len(body)
+			}
+			h := sha256.New()
+			h.Write(body[:k])
+			h.Write([]byte{byte(rapid.IntRange(0, 1).Draw(t, "mimarker"))})
+			name, b64 := "mi-sha256-03=", base64.StdEncoding
+			if target == "mice.Decode02" {
+				name, b64 = "mi-sha256-draft2=", base64.RawURLEncoding
+			}
+			stream = append(binary.BigEndian.AppendUint64(nil, rsv), body...)
+			return Case{Target: target, Input: stream, Str: name + b64.EncodeToString(h.Sum(nil)), Origin: "mi-crafted-digest"}
 		case 0:
 			if len(stream) >= 8 {
 				binary.BigEndian.PutUint64(stream, rapid.SampledFrom(hostile).Draw(t, "mirsv"))
